@@ -171,6 +171,10 @@ theorem C09_sh_frozen_rejected (h : SH β) (hi : SInv h) (hf : h.frozen = true) 
   | merge o => simp [SOp.mutates] at hm
   | freeze => simp [SOp.mutates] at hm
 
+/-- `Keys`, `Values`, `Len` are projections of the iteration order that `C09_sh_refine` pins down -/
+theorem C09_sh_views (h : SH β) :
+    h.keys = h.pairs.map (·.1) ∧ h.values = h.pairs.map (·.2) ∧ h.len = h.pairs.length := ⟨rfl, rfl, rfl⟩
+
 /-! non-vacuity: the fixed defect's history (put a, b, c; delete a; get c) and a frozen hash -/
 def shWitness : List (SOp Nat) := [.put "a" 1, .put "b" 2, .put "c" 3, .delete "a", .get "c", .get "a", .includes "b"]
 example : (runSH SH.new shWitness).1.map (·.1) = [.none, .none, .none, .val 1, .val 3, .none, .unit] := by decide
@@ -233,6 +237,12 @@ theorem C09_hash_no_fault (ops : List (HOp α β)) (hl : ∀ op ∈ ops, LitOK k
 theorem C09_hash_index_iff {h : Hash α β κ} (hi : HInv key h) (k : κ) (i : Nat) :
     GoMap.get (h.valueIndex key).2 k = some i ↔ (h.entries[i]?).map (fun e => key e.1) = some k := by
   rw [hi.valueIndex.2.2, idx_iff hi.1]
+
+omit [DecidableEq κ] in
+/-- `Keys`, `Values`, `Len`, `At` are projections of the entries that `C09_hash_refine_partial` pins down (`view`) -/
+theorem C09_hash_views (h : Hash α β κ) (i : Nat) :
+    h.keys = h.entries.map (·.1) ∧ h.values = h.entries.map (·.2) ∧ h.len = h.entries.length ∧
+      h.atIdx i = h.entries[i]? := ⟨rfl, rfl, rfl, rfl⟩
 
 /-- `MutableHashValue.PutAll`: never faults, the new content is the merge, the invariant is kept -/
 theorem C09_mutable_putAll {h : Hash α β κ} (hi : HInv key h) {o : List (α × β)} (ho : (keys key o).Nodup) :
